@@ -243,7 +243,7 @@ impl<'a> Iterator for PresentArgumentsIter<'a> {
     type Item = &'a str;
     #[inline]
     fn next(&mut self) -> Option<Self::Item> {
-        if self.index == self.back_index {
+        if self.index >= self.back_index {
             return None;
         }
         let (start, len) = self.data.extensions[self.data_index + self.index].get_arg();
@@ -255,7 +255,7 @@ impl<'a> Iterator for PresentArgumentsIter<'a> {
 impl DoubleEndedIterator for PresentArgumentsIter<'_> {
     #[inline]
     fn next_back(&mut self) -> Option<Self::Item> {
-        if self.index == self.back_index {
+        if self.index >= self.back_index {
             return None;
         }
         let (start, len) = self.data.extensions[self.data_index + self.back_index - 1].get_arg();
